@@ -64,6 +64,7 @@ func newCtx(P *Program) *Ctx {
 		strLits: map[string]bool{}, nonzero: map[string]bool{}, sliceParts: map[string][4]string{},
 		heapCellT: map[string]types.Type{}, heapDims: map[string]int{}, heapKeyS: map[string]string{}, heapReg: map[string]func(*Ctx){}}
 	c.typeByID = append(c.typeByID, nil)
+	c.decls = append(c.decls, "(assert (forall ((a! (Array Int Int)) (o! Int) (n! Int)) (! (= (bv.len (bv.of a! o! n!)) n!) :pattern ((bv.of a! o! n!)))))")
 	return c
 }
 
@@ -78,7 +79,6 @@ const prelude = `(set-option :produce-models true)
 (declare-fun bv.of ((Array Int Int) Int Int) BV)
 (declare-fun bv.ofstr (String) BV)
 (declare-fun bv.tostr (BV) String)
-(assert (forall ((a! (Array Int Int)) (o! Int) (n! Int)) (! (= (bv.len (bv.of a! o! n!)) n!) :pattern ((bv.of a! o! n!)))))
 (declare-fun bits.and (Int Int) Int)
 (declare-fun bits.or (Int Int) Int)
 (declare-fun bits.xor (Int Int) Int)
